@@ -102,8 +102,11 @@ def _c12_runs(tier, seed, replay):
 
 def _c13_runs(tier, seed, replay):
     if tier == "quick":
-        return [["events", "--seed", S(seed, i), "--n", "150", "--maxops", "25"] for i in range(1, 5)]
-    return [["events", "--seed", S(seed, 10 + i), "--n", "800", "--maxops", "30"] for i in range(12)]
+        return ([["events", "--seed", S(seed, i), "--n", "150", "--maxops", "25"] for i in range(1, 5)]
+                + [["faults", "--kind", "events", "--seed", S(seed, 7), "--n", "25", "--maxops", "8"], ["faults", "--kind", "replica-events", "--seed", S(seed, 8), "--n", "12"]])
+    return ([["events", "--seed", S(seed, 10 + i), "--n", "800", "--maxops", "30"] for i in range(12)]
+            + [["faults", "--kind", "events", "--seed", S(seed, 30 + i), "--n", "150", "--maxops", "10"] for i in range(2)]
+            + [["faults", "--kind", "replica-events", "--seed", S(seed, 40 + i), "--n", "80"] for i in range(2)])
 
 def _c14_runs(tier, seed, replay):
     if tier == "quick":
@@ -195,7 +198,7 @@ PROPS = {
         bridge_modules=["HC.Bridge.Stores"], bridging=["HC.Bridge.Stores.event_queue"],
         runs=_c13_runs,
         partial="fan-out to several subscribers is a property of async-broadcast (modelled: every attached subscriber receives the operation's event list); the union-of-announced-ranges oracle is evaluated by the harness",
-        rule="writer + replica with 0-3 subscribers each attached at random points and drained after every call: appends, empty batches, clears, reads of held/missing/out-of-range indices, accepted proofs (block/upgrade/both), refused and failing proofs, appends on a read-only core; per-call events compared with the list-model oracle and with the Lean model; union of announced ranges = blocks that became available",
+        rule="writer + replica with 0-3 subscribers each attached at random points and drained after every call: appends, empty batches, clears, reads of held/missing/out-of-range indices, accepted proofs (block/upgrade/both), refused and failing proofs, appends on a read-only core, and every mutating call / proof application replayed once per storage operation with that operation failing (a failed call announces nothing); per-call events compared with the list-model oracle and with the Lean model; union of announced ranges = blocks that became available",
         trusted=LOG_TRUSTED + ["async-broadcast (dependency) is modelled as per-subscriber queues below the capacity of 32"],
         assumptions=["fewer than 32 undrained events"],
     ),
